@@ -11,10 +11,32 @@ use salsa::Database;
 /// One representative per lexer class (DESIGN §2.8).
 pub const SIGMA: &[&str] = &[
     "fn", "let", "match", "if", "else", "loop", "use", "mod", "struct", "enum", "impl", "trait", "of", "ref",
-    "mut", "return", "f", "x", "_", "1", "0x", "1_u8", "'c'", "\"s", "\"s\"", "(", ")", "{", "}", "[", "]",
+    "mut", "return", "pub", "const", "type", "extern", "as", "while", "for", "in", "break", "true", "f", "x", "_", "1", "0x", "1_u8", "'c'", "\"s", "\"s\"", "(", ")", "{", "}", "[", "]",
     "::", ":", ";", ",", ".", "..", "=>", "->", "=", "==", "+", "-", "*", "!", "@", "&", "&&", "|", "?", "#",
     "<", ">", "//c\n", "\n", "\u{c}", "é", "'", "$",
 ];
+/// Syntactic contexts a token string is placed in (`$` is replaced by the string): most recovery paths of the
+/// parser are only reachable inside a particular construct.
+pub const CONTEXTS: &[(&str, &str)] = &[
+    ("module", "$"),
+    ("fn-body", "fn f() { $ }"),
+    ("struct-body", "struct A { $ }"),
+    ("enum-body", "enum A { $ }"),
+    ("trait-body", "trait T { $ }"),
+    ("impl-body", "impl I of T { $ }"),
+    ("fn-params", "fn f($) {}"),
+    ("generic-params", "fn f<$>() {}"),
+    ("closure-params", "fn f() { let c = |$| 1; }"),
+    ("match-arms", "fn f() { match x { $ } }"),
+    ("call-args", "fn f() { g($); }"),
+    ("struct-ctor", "fn f() { A { $ }; }"),
+    ("use-tree", "use a::{$};"),
+    ("attribute", "#[a($)]\nfn f() {}"),
+    ("let-pattern", "fn f() { let $ = x; }"),
+    ("type-position", "fn f(a: $) {}"),
+    ("macro-rule", "macro m { ($) => { $ }; }"),
+];
+
 /// Reduced alphabet for the deeper bound.
 pub const SIGMA2: &[&str] =
     &["fn", "f", "(", ")", "{", "}", "<", ">", "::", ";", ",", "let", "=", "1", "#", "[", "]", "\"s", "//c\n", "impl"];
